@@ -123,8 +123,13 @@ Definition subsetb {A} (eqb : A -> A -> bool) (l1 l2 : list A) : bool :=
 
 Definition nset_eqb (a b : list N) : bool := subsetb N.eqb a b && subsetb N.eqb b a.
 
+(* matchers as a multiset: the recorded selects are collected as a set keyed by the matchers in
+   canonical order, so two selects that differ only in the order of their matchers are one *)
+Definition mset_eqb (a b : list matcher) : bool :=
+  Nat.eqb (List.length a) (List.length b) && subsetb matcher_eqb a b && subsetb matcher_eqb b a.
+
 Definition sel_eqb (a b : sel) : bool :=
-  list_eqb matcher_eqb (s_ms a) (s_ms b) && Z.eqb (s_start a) (s_start b) && Z.eqb (s_end a) (s_end b)
+  mset_eqb (s_ms a) (s_ms b) && Z.eqb (s_start a) (s_start b) && Z.eqb (s_end a) (s_end b)
   && Z.eqb (s_step a) (s_step b) && Z.eqb (s_range a) (s_range b) && String.eqb (s_func a) (s_func b)
   && nset_eqb (s_grp a) (s_grp b) && Bool.eqb (s_by a) (s_by b).
 
@@ -138,9 +143,6 @@ Definition hint_mismatches (cs : list hint_case) : list N :=
 
 (* ---- C09 / C10: AST rewriting correspondence --------------------------- *)
 From Verif Require Import Opt.
-
-Definition mset_eqb (a b : list matcher) : bool :=
-  Nat.eqb (List.length a) (List.length b) && subsetb matcher_eqb a b && subsetb matcher_eqb b a.
 
 Definition optZ_eqb (a b : option Z) : bool :=
   match a, b with Some x, Some y => Z.eqb x y | None, None => true | _, _ => false end.
